@@ -94,21 +94,47 @@ func (t *translator) loopHeader(s ast.Stmt) string {
 	return ""
 }
 
-type renv map[string]string // atom text -> atom text (renames); identity when absent
+// renv: atom text -> atom text it currently stands for.  A rename introduced by a declaration (`x := ...`, an
+// if-initialiser) is scoped to its block; one introduced by a plain assignment (`limit = len(results)`) persists
+// along the path after the block ends.  Persistent keys carry the prefix "=" in the map.
+type renv map[string]string
 
-func (e renv) with(r map[string]string) renv {
+func (e renv) with(r map[string]string) renv { return e.withP(r, false) }
+
+func (e renv) withP(r map[string]string, persistent bool) renv {
 	n := renv{}
 	for k, v := range e {
 		n[k] = v
 	}
 	for k, v := range r {
 		n[k] = v
+		if persistent {
+			n["="+k] = "1"
+		} else {
+			delete(n, "="+k)
+		}
+	}
+	return n
+}
+
+// leave returns the environment after a block: the outer one plus the persistent renames made inside
+func (outer renv) leave(inner renv) renv {
+	n := renv{}
+	for k, v := range outer {
+		n[k] = v
+	}
+	for k := range inner {
+		if strings.HasPrefix(k, "=") {
+			key := k[1:]
+			n[key] = inner[key]
+			n[k] = "1"
+		}
 	}
 	return n
 }
 
 func (t *translator) atom(txt string, e renv) (atom, bool) {
-	if r, ok := e[txt]; ok {
+	if r, ok := e[txt]; ok && !strings.HasPrefix(txt, "=") {
 		txt = r
 	}
 	for _, a := range t.spec.Atoms {
@@ -243,7 +269,7 @@ func (t *translator) stmts(l []ast.Stmt, acts []int, e renv, k cont) string {
 	next := func(a []int, e2 renv) string { return t.stmts(rest, a, e2, k) }
 	switch v := s.(type) {
 	case *ast.BlockStmt:
-		return t.stmts(v.List, acts, e, func(a []int, _ renv) string { return next(a, e) })
+		return t.stmts(v.List, acts, e, func(a []int, in renv) string { return next(a, e.leave(in)) })
 	case *ast.ReturnStmt:
 		switch len(v.Results) {
 		case 0:
@@ -295,7 +321,7 @@ func (t *translator) stmts(l []ast.Stmt, acts []int, e renv, k cont) string {
 		if ty != "bool" {
 			panic(trErr{"non-boolean condition " + t.text(v.Cond)})
 		}
-		after := func(a []int, _ renv) string { return next(a, e) }
+		after := func(a []int, in renv) string { return next(a, e.leave(in)) }
 		th := t.stmts(v.Body.List, acts, e2, after)
 		var el string
 		if v.Else == nil {
@@ -308,7 +334,7 @@ func (t *translator) stmts(l []ast.Stmt, acts []int, e renv, k cont) string {
 		if v.Init != nil {
 			panic(trErr{"switch with initialiser"})
 		}
-		after := func(a []int, _ renv) string { return next(a, e) }
+		after := func(a []int, in renv) string { return next(a, e.leave(in)) }
 		var clauses []*ast.CaseClause
 		var def *ast.CaseClause
 		for _, c := range v.Body.List {
@@ -366,7 +392,11 @@ func (t *translator) stmts(l []ast.Stmt, acts []int, e renv, k cont) string {
 	default:
 		txt := t.text(s)
 		if r, ok := t.spec.Binders[txt]; ok {
-			return next(acts, e.with(r))
+			persistent := false
+			if as, isAs := s.(*ast.AssignStmt); isAs && as.Tok != token.DEFINE {
+				persistent = true
+			}
+			return next(acts, e.withP(r, persistent))
 		}
 		if id, ok := t.spec.Actions[txt]; ok {
 			return next(appendAct(acts, id), e)
